@@ -57,7 +57,13 @@ def generate(rng, tier, n):
             b = perturb(rng, a) if rng.chance(2, 3) else vec(rng)
             cases.append({'op': 'icost', 'a': s(a), 'b': s(b), 'exact': False})
         elif r < 50:
-            la, lb = rng.below(7), rng.below(7)
+            # lengths 0-9: InsertionCost keeps up to 6 components inline and spills longer vectors to the heap, and the
+            # operands of + and - may have any two lengths (the shorter one is padded with zeros)
+            la, lb = rng.below(10), rng.below(10)
+            if rng.chance(1, 4):
+                la, lb = rng.range(0, 6), rng.range(7, 9)      # right operand strictly longer and beyond the inline size
+            elif rng.chance(1, 6):
+                la, lb = rng.range(7, 9), rng.range(0, 6)
             va = [rng.range(-2**rng.range(1, 50), 2**rng.range(1, 50)) for _ in range(la)]
             vb = [rng.range(-2**rng.range(1, 50), 2**rng.range(1, 50)) for _ in range(lb)]
             if rng.chance(1, 4) and va:
@@ -144,10 +150,12 @@ def compare(c, impl, model):
         if impl['eq'] != (ab == [0]):
             return 'eq: impl %s but model cmp %s' % (impl['eq'], ab)
         if c.get('exact'):
-            for k, name in enumerate(['add', 'sub', 'addsub']):
+            for k, name in enumerate(['add', 'sub', 'addsub', 'subadd']):
                 got = fvals(impl[name])
                 if got != arith[k]:
                     return '%s: impl %s model %s' % (name, got, arith[k])
+        if not impl.get('owned_same', True):
+            return 'the by-value + / - operators differ from the by-reference ones'
         return None
     if op == 'icost3':
         got = [impl['ab'], impl['bc'], impl['ac'], impl['ba'], impl['aa']]
@@ -174,6 +182,8 @@ def oracle(c, impl):
     if op == 'icost':
         if c.get('exact') and impl['addsub_cmp'] != 0:
             v.append({'class': 'addsub', 'what': '(x+y)-y != x on integer-valued cost vectors'})
+        if c.get('exact') and impl.get('subadd_cmp', 0) != 0:
+            v.append({'class': 'subadd', 'what': '(x-y)+y != x on integer-valued cost vectors'})
         if c['a'] == c['b'] and impl['cmp'] != 0:
             v.append({'class': 'icost-refl', 'what': 'cmp(x,x) != Equal'})
     if op == 'icost3':
